@@ -89,6 +89,33 @@ class Gen:
         return out
 
 
+def plant(g, nodes, kinds):
+    """add one file of each of `kinds` to the tree: as a further argument, or inside a (new or
+    existing) directory argument, possibly nested"""
+    r = g.r
+    for kind in kinds:
+        name = r.choice(FILE_NAMES[kind])
+        where = r.choice(["top", "dir", "dir", "nested"])
+        level, prefix = nodes, ""
+        if where != "top":
+            for _ in range(2 if where == "nested" else 1):
+                dirs = [n for n in level if n[0] == "dir"]
+                if dirs and r.random() < 0.6:
+                    d = r.choice(dirs)
+                else:
+                    dn = r.choice(DIR_NAMES)
+                    if any(n[1] == dn for n in level):
+                        break
+                    d = ("dir", dn, [])
+                    level.insert(r.randint(0, len(level)), d)
+                level, prefix = d[2], prefix + d[1] + "/"
+        if any(n[1] == name for n in level) or (prefix == "" and name.startswith("-")):
+            continue        # (a top-level name beginning with `-` would be read as an option by clap)
+        g.k += 1
+        g.ids[prefix + name] = g.k
+        level.insert(r.randint(0, len(level)), ("file", name, kind, g.k))
+
+
 def materialise(root, nodes):
     for n in nodes:
         p = os.path.join(root, n[1])
@@ -174,6 +201,10 @@ def role_case(exe, scratch, idx, seed):
     weights = r.choice([[5, 1, 3, 1, 3], [3, 2, 3, 2, 2], [6, 0, 3, 0, 2], [2, 3, 3, 1, 1], [4, 1, 4, 2, 1], [1, 1, 1, 1, 6]])
     g = Gen(r)
     nodes = g.nodes(2, 7, "", weights)
+    if mode == "strong" and r.random() < 0.5:
+        # the program roles of strong equivalence must not depend on .spec/.ug/.po files that happen to
+        # be among the arguments or inside the given directories
+        plant(g, nodes, r.sample(["spec", "ug", "po"], r.choice([1, 1, 2, 3])) + (["lp", "lp"] if r.random() < 0.5 else []))
     root = os.path.join(scratch, f"roles{idx}")
     os.makedirs(os.path.join(root, "in"))
     materialise(os.path.join(root, "in"), nodes)
@@ -317,11 +348,32 @@ def swap_case(exe, scratch, idx, mode, a, b, extra):
 
 
 def extra(ctx, cfg, results):
+    cli_search(ctx, cfg)
+
+
+def search_on_break(ctx, cfg, broken):
+    """A build or proof obligation broke (e.g. the harness no longer compiles against the tree because
+    an accessor of `Files` was removed or renamed).  The end-to-end part needs only the anthem CLI of
+    the tree (built separately from the harness) and the model driver: run it anyway, so that a
+    behavioural change is reported with the concrete argument list."""
+    if not os.path.exists(vlib.DRIVER_EXE):
+        try:
+            vlib.build_driver()
+        except vlib.Broken:
+            return False
+    before = len(ctx.violations)
+    cli_search(ctx, cfg)
+    return any(f for _, _, f in ctx.violations[before:])
+
+
+def cli_search(ctx, cfg):
+    """the CLI-only part of the check (no harness): role cases against the model, swap cases"""
     exe = clilib.anthem_exe()
     thorough = ctx.tier == "thorough"
     n_roles = 12000 if thorough else 1600
     n_swaps = 600 if thorough else 120
-    dist = {"mode": {}, "expected": {}, "args": {}, "files_per_case": {}, "decoded_role_holders": 0, "swap": {}, "swap_problems": 0}
+    dist = {"mode": {}, "expected": {}, "args": {}, "files_per_case": {}, "decoded_role_holders": 0, "swap": {}, "swap_problems": 0,
+            "strong_roles_filled_with_spec_ug_po_present": 0}
     with clilib.Scratch("C20") as scratch:
         r0 = clilib.rng(ctx, "roles")
         seeds = [r0.getrandbits(48) for _ in range(n_roles)]
@@ -355,6 +407,8 @@ def extra(ctx, cfg, results):
                 ctx.violation("anthem rejected a file set for which the model fills every role", payload, True)
                 continue
             ctx.nontrivial.add(o["line"] + o["mode"])
+            if o["mode"] == "strong" and any(p.endswith((".spec", ".ug", ".po")) and len(os.path.basename(p)) > 5 for p in o["ids"]):
+                dist["strong_roles_filled_with_spec_ug_po_present"] += 1
             dist["decoded_role_holders"] += sum(1 for v in o["observed"].values() if v is not None)
             if o["observed"] != exp:
                 payload.update({"expected_file_numbers_by_role": exp, "observed_file_numbers_by_role": o["observed"]})
